@@ -116,6 +116,33 @@ def rec_de_consume(parent, data):
     return Rec(data.pop("name"), data.pop("size"))
 
 
+def recnest_ser(node, data):
+    """A mapper that also stores a *nested* dict whose keys are the user's own -- some of them spelled like the short
+    codes / long names of the key map ('s', 'i', 'k', 'str'): only the entry's own keys are the format's business."""
+    d = node.data
+    data.update({"type": "rec", "name": d.name, "size": d.size, "attrs": {"s": d.size, "i": d.name, "str": "v", "k": [d.size, {"s": 1}]}})
+    return data
+
+
+def recnest_de(parent, data):
+    a = data["attrs"]
+    assert data["type"] == "rec" and sorted(a) == ["i", "k", "s", "str"] and a["k"] == [a["s"], {"s": 1}] and a["str"] == "v", data
+    return Rec(a["i"], a["s"])
+
+
+def recshort_ser(node, data):
+    """A mapper whose own field names are one-letter words that the *default* key map uses as codes ('s', 'i', 'k'):
+    legitimate as long as the document's key map does not declare them (key_map=False or a custom map)."""
+    d = node.data
+    data.update({"t": "rec", "i": d.name, "s": d.size, "k": True})
+    return data
+
+
+def recshort_de(parent, data):
+    assert data["t"] == "rec" and data["k"] is True, data
+    return Rec(data["i"], data["s"])
+
+
 def str_de(parent, data):
     """Callback for string trees whose entries are dicts ({'str':..., 'data_id':...})."""
     return data["str"]
@@ -205,8 +232,9 @@ mk_fs = _memo(_fs_entry)
 class Family:
     """How to build, save and load one class of trees."""
 
-    def __init__(self, name, *, new_tree, load_cls, typed, mk, save_mapper, load_mapper, key_custom, value_custom, guid=False, style=""):
+    def __init__(self, name, *, new_tree, load_cls, typed, mk, save_mapper, load_mapper, key_custom, value_custom, guid=False, style="", km_names=("default", "off", "custom")):
         self.name = name
+        self.km_names = tuple(km_names)
         self.new_tree = new_tree
         self.load_cls = load_cls
         self.typed = typed
@@ -263,6 +291,12 @@ _fam("recpoptyped", new_tree=lambda: TypedTree("T"), load_cls=TypedTree, typed=T
 _fam("rectyped", new_tree=lambda: TypedTree("T"), load_cls=TypedTree, typed=True, mk=mk_rec, save_mapper=rec_ser, load_mapper=rec_de,
      key_custom={"name": "n", "type": "t", "kind": "K"},
      value_custom=lambda L: {"custom": {"kind": ["k2", "zz", "k1"], "type": ["other", "rec"]}, "custom_nokind": {"name": _vals(L)}}, style="callback mappers")
+_fam("recnest", new_tree=lambda: Tree("T"), load_cls=Tree, typed=False, mk=mk_rec, save_mapper=recnest_ser, load_mapper=recnest_de,
+     key_custom={"name": "n", "attrs": "s", "data_id": "i"},
+     value_custom=lambda L: {"custom": {"type": ["other", "rec"], "name": _vals(L)}}, style="callback mappers storing a nested dict with keys spelled like key-map codes")
+_fam("recshort", new_tree=lambda: Tree("T"), load_cls=Tree, typed=False, mk=mk_rec, save_mapper=recshort_ser, load_mapper=recshort_de,
+     key_custom={"data_id": "D", "t": "T"}, km_names=("off", "custom", "empty"),
+     value_custom=lambda L: {"custom": {"t": ["other", "rec"], "i": _vals(L)}}, style="callback mappers whose field names equal the default map's codes (key_map off / custom only)")
 _fam("dw", new_tree=lambda: Tree("T"), load_cls=Tree, typed=False, mk=mk_dw, save_mapper=DictWrapper.serialize_mapper,
      load_mapper=DictWrapper.deserialize_mapper, key_custom={"name": "n"}, value_custom=lambda L: {"custom": {"name": _vals(L)}},
      style="DictWrapper class mappers as callbacks")
@@ -466,9 +500,9 @@ _COMBO_CACHE = {}
 
 def combos(fam: Family, mode: str):
     """Option tuples (key_map, value_map, compression, target, meta) for a family."""
-    key = (tuple(fam.value_map_names()), mode)
+    key = (tuple(fam.value_map_names()), mode, fam.km_names)
     if key not in _COMBO_CACHE:
-        kms = ["default", "off", "custom"]
+        kms = list(fam.km_names)
         vms = fam.value_map_names()
         comps = list(COMPRESSION)
         if mode == "pair":
@@ -677,6 +711,8 @@ def case_list(tier: str):
     out += [("rectyped", s) for s in gen.typed_specs(N - 1)]
     out += [("recpop", s) for s in gen.plain_specs(N - 2)] + [("recpop", s) for s in idclone_specs(N - 1, ids=("id7", 0))]
     out += [("recpoptyped", s) for s in idclone_specs(N - 2, typed=True)]
+    out += [("recnest", s) for s in gen.plain_specs(N - 2)] + [("recnest", s) for s in idclone_specs(N - 2)]
+    out += [("recshort", s) for s in gen.plain_specs(N - 2)] + [("recshort", s) for s in idclone_specs(N - 2)]
     out += [("dw", s) for s in gen.plain_specs(N - 1)]
     out += [("dw", s) for s in gen.explicit_id_specs(2)]
     out += [("derived", s) for s in gen.plain_specs(N - 1)]
